@@ -78,6 +78,10 @@ Definition mkIte c f g :=
          match f, g with
          | FT, FF => c
          | FF, FT => mkNeg c
+         | FT, _ => mkDisj c g
+         | _, FF => mkConj c f
+         | FF, _ => mkConj (mkNeg c) g
+         | _, FT => mkDisj (mkNeg c) f
          | _, _ => FIte c f g
          end
   end.
@@ -103,7 +107,7 @@ Proof.
   destruct c; try reflexivity;
     (destruct (form_eqb f g) eqn:E;
      [apply form_eqb_sound in E; subst; simpl; match goal with |- _ = if ?b then _ else _ => destruct b end; reflexivity|]);
-    destruct f, g; simpl; rewrite ?mkNeg_ok; simpl;
+    destruct f, g; cbv beta iota; rewrite ?mkDisj_ok, ?mkConj_ok, ?mkNeg_ok; cbn [feval];
     repeat match goal with |- context [Z.testbit ?a ?b] => generalize (Z.testbit a b); intro end;
     repeat match goal with |- context [feval ?e ?f] => generalize (feval e f); intro end;
     repeat match goal with b : bool |- _ => destruct b end; reflexivity.
